@@ -163,6 +163,7 @@ template <class G> void checkC11(const G &g, const Model &m, Fail &f) {
         auto wantDist = [&](unsigned v) { return d[v] == Ref::INF ? SENT : (size_t)d[v]; };
         // single predecessors
         auto sp = algorithms::findVertexPredecessors(g, s);
+        digest(seqStr(sp.first));
         if (sp.first.size() != n || sp.second.size() != n) f.add("c11.single", "findVertexPredecessors returned vectors of the wrong length, " + where);
         else
             for (unsigned v = 0; v < n; ++v) {
@@ -174,6 +175,7 @@ template <class G> void checkC11(const G &g, const Model &m, Fail &f) {
             }
         // all predecessors
         auto ap = algorithms::findAllVertexPredecessors(g, s);
+        for (auto &pl : ap.second) { std::vector<unsigned> srt(pl.begin(), pl.end()); std::sort(srt.begin(), srt.end()); digest(seqStr(srt)); }
         if (ap.first.size() != n || ap.second.size() != n) f.add("c11.all", "findAllVertexPredecessors returned vectors of the wrong length, " + where);
         else
             for (unsigned v = 0; v < n; ++v) {
@@ -227,6 +229,7 @@ template <class G> void checkC11(const G &g, const Model &m, Fail &f) {
                 return o.empty() ? std::string("(none)") : o;
             };
             auto got = canonAll(algorithms::findAllGeodesics(g, s, t));
+            digestNum(got.size());
             if (got != want) f.add("c11.allpaths", "findAllGeodesics(" + std::to_string(s) + "," + std::to_string(t) + ") returned " + show(got) + ", expected exactly " + show(want) + ", on " + m.str());
             if (allFrom.size() == n) {
                 auto got2 = canonAll(allFrom[t]);
@@ -246,6 +249,7 @@ template <class G> void checkC12(const G &g, const Model &m, Fail &f) {
         bool tie = false;
         breadcrumb("C12 Dijkstra source " + std::to_string(s) + " on " + m.str());
         auto res = algorithms::findGeodesicsDijkstra(g, s);
+        for (double dv : res.first) digest(hexd(dv));
         std::string where = "source " + std::to_string(s) + " on " + m.str();
         if (res.first.size() != n || res.second.size() != n) { f.add("c12.shape", "result vectors have the wrong length, " + where); continue; }
         for (unsigned v = 0; v < n; ++v) {
@@ -336,7 +340,7 @@ template <class G> struct Runner {
     std::string prop, cfgName;
     Reporter &rep;
     std::vector<long> weights;
-    unsigned shard = 0, shards = 1;
+    unsigned shard = 0, shards = 1, minEdges = 0, stride = 1;
     Runner(const std::string &p, const std::string &c, Reporter &r) : prop(p), cfgName(c), rep(r) {}
 
     void visit(const G &g, const Model &m, const std::string &howBuilt, const std::string &replay) {
@@ -384,13 +388,14 @@ template <class G> struct Runner {
         std::vector<unsigned> ch(P, 0);
         unsigned long long counter = 0;
         while (true) {
-            if (shards > 1 && (counter++ % shards) != shard) goto next;
+            ++counter;
+            if (shards > 1 && (counter % shards) != shard) goto next;
             {
             unsigned long mask = 0;
             unsigned edges = 0;
             for (size_t k = 0; k < P; ++k)
                 if (ch[k]) { mask |= 1ul << k; ++edges; }
-            if (edges <= maxEdges) {
+            if (edges <= maxEdges && edges >= minEdges && (stride <= 1 || (counter % stride) == 0)) {
                 for (int order = 0; order < (T::directed ? 2 : 3); ++order) {
                     G g(0);
                     Model m;
@@ -480,6 +485,44 @@ template <class G> struct Runner {
         }
     }
 
+    // every subset of exactly `k` loop-free pairs x every value assignment x ascending/descending insertion
+    void sourceSubsets(unsigned n, unsigned k) {
+        auto pairs = allPairs(n, T::directed, false);
+        size_t P = pairs.size();
+        size_t W = T::fam == WEIGHTED ? weights.size() : 1;
+        std::vector<size_t> comb(k);
+        for (size_t i = 0; i < k; ++i) comb[i] = i;
+        unsigned long long counter = 0;
+        if (k > P) return;
+        while (true) {
+            std::vector<size_t> wv(k, 0);
+            while (true) {
+                ++counter;
+                if ((shards <= 1 || (counter % shards) == shard) && (stride <= 1 || (counter % stride) == 0)) {
+                    for (int order = 0; order < 2; ++order) {
+                        std::vector<std::tuple<unsigned, unsigned, long>> ins;
+                        for (size_t t = 0; t < k; ++t) {
+                            size_t q = order ? k - 1 - t : t;
+                            ins.emplace_back(pairs[comb[q]].first, pairs[comb[q]].second, T::fam == WEIGHTED ? weights[wv[q]] : 0L);
+                        }
+                        visitInsertions(n, ins, "k-subsets");
+                    }
+                }
+                size_t q = 0;
+                while (q < k && wv[q] + 1 == W) wv[q++] = 0;
+                if (q == k) break;
+                ++wv[q];
+            }
+            if (stop()) return;
+            // next combination
+            int i = (int)k - 1;
+            while (i >= 0 && comb[i] == P - k + i) --i;
+            if (i < 0) break;
+            ++comb[i];
+            for (size_t j = i + 1; j < k; ++j) comb[j] = comb[j - 1] + 1;
+        }
+    }
+
     // layered graphs: every sequence of layer widths in {1,2,3} with at most maxV vertices; consecutive layers completely joined
     void sourceLayered(unsigned maxV, long weight) {
         std::vector<unsigned> widths;
@@ -557,6 +600,9 @@ template <class G> int runOne(const std::string &prop, const std::string &name, 
     unsigned n = (unsigned)args.getInt("n", 3);
     run.shard = (unsigned)args.getInt("shard", 0);
     run.shards = (unsigned)args.getInt("shards", 1);
+    run.minEdges = (unsigned)args.getInt("minedges", 0);
+    run.stride = (unsigned)args.getInt("stride", 1); // >1: every stride-th member of the enumeration (a fixed, seed-free subset; reported as a cap)
+    if (run.stride > 1) rep.cap(rep.config + ": only every " + std::to_string(run.stride) + "-th element of the enumeration is visited");
     if (run.shards > 1) rep.config += "/shard" + std::to_string(run.shard) + "of" + std::to_string(run.shards);
     run.cfgName = rep.config;
     if (source == "e1") {
@@ -582,6 +628,7 @@ template <class G> int runOne(const std::string &prop, const std::string &name, 
         ex.run();
     } else if (source == "e2") run.sourceE2(n, !args.has("noloops"), (unsigned)args.getInt("maxedges", 1000));
     else if (source == "lists") run.sourceLists(n);
+    else if (source == "subsets") run.sourceSubsets(n, (unsigned)args.getInt("edges", 5));
     else if (source == "perm") run.sourcePerm(n, (unsigned)args.getInt("edges", 6));
     else if (source == "layered") run.sourceLayered((unsigned)args.getInt("maxv", 12), args.getInt("weight", 1));
     else if (source == "grid") run.sourceGrid((unsigned)args.getInt("side", 5), args.getInt("weight", 1));
